@@ -101,6 +101,15 @@ CreateStation(p) ==
   /\ acts' = Append(acts, [op |-> "station", parent |-> p, ref |-> 0, lof |-> "-"])
   /\ UNCHANGED <<ohist, nobs>>
 
+\* create_station(name, latlonalt, parent_frame = p, equatorial = TRUE): the station's own centre, but the axes of EME2000 (no new
+\* orientation node) - the frame in which right ascension / declination are measured from a site
+CreateStationEq(p) ==
+  /\ NCreated < MaxCreate
+  /\ LET c == TLCEval(LinkC(cnb, crt, NewC, frames[p].c)) IN cnb' = c[1] /\ crt' = c[2]
+  /\ frames' = Append(frames, [kind |-> "station", o |-> 5, c |-> NewC, parent |-> p, ref |-> 0])
+  /\ acts' = Append(acts, [op |-> "station-eq", parent |-> p, ref |-> 0, lof |-> "-"])
+  /\ UNCHANGED <<onb, ort, ohist, nobs>>
+
 \* orbit2frame(name, ref_orbit given in frame r, orientation lof, parent = p)
 \*   lof = "None": no new orientation node, the frame re-uses the orientation of r
 \*   centre: new + centre(r)
@@ -155,6 +164,7 @@ RefFrames == {5, 1, 10} \cup {i \in (NBuiltO + 1)..Len(frames) : TRUE}
 
 Next ==
   \/ \E p \in StationParents : CreateStation(p)
+  \/ \E p \in {1, 2, 8} : CreateStationEq(p)
   \/ \E r \in RefFrames, lof \in {"None", "QSW", "TNW"}, p \in InertialParents : CreateOrbitFrame(r, lof, p)
   \/ \E po \in UserOrients, pc \in UserCentres : CreateUserFrame(po, pc)
   \/ ObserveAll
